@@ -347,7 +347,14 @@ func (g *gen) messageDef(name string, top bool) *Def {
 		default:
 			idx = uint8(i + 1)
 		}
-		if idx == 0 || used[idx] {
+		if i == 0 && g.r.Chance(1, 60) {
+			// index 0 is the terminator byte on the wire; whether the compiler accepts such a
+			// message is its business, and what it accepts has to work
+			idx = 0
+		} else if idx == 0 {
+			continue
+		}
+		if used[idx] {
 			continue
 		}
 		used[idx] = true
